@@ -101,4 +101,46 @@ CLAIMS['C08'] = {
             'if PGPy accepts it, it must consume exactly its octets, re-serialise to a packet whose header length equals its body length, accept that again as the same class, and be a fixed point. Path trees exhausted within the per-class bounds.',
     'note': 'Bounds: a few symbolic octets per field, integers below 2^32, EC point octets from boundary sets, fixed times, no compressed packets (C code), v4 only. "Same field values" is checked as same class + identical re-serialisation. '
             'Four genuine defects repaired (secret-key usage 255 aliasing, unhashed area length mismatch, stale header length after normalisation, literal file-name codec).'}
+CLAIMS['C03'] = {
+    'technique': 'bounded symbolic execution of the real encrypt/decrypt framing code with ideal-functionality stand-ins for every primitive; what is handed to the primitives is compared with RFC 4880 / RFC 6637 layouts (CrossHair+z3)',
+    'text': 'With the cipher, SHA-1, S2K, the public-key operation and the KDF replaced by recording stand-ins, the real code is shown to hand the public-key operation  cipher id || key || checksum  (9 ciphers, symbolic key octets), '
+            'to build the passphrase session-key packet and the integrity-protected data exactly as RFC 4880 5.3 / 5.13 say (fresh salt / prefix from the entropy feed, symbolic data), to derive the RFC 6637 section 8 parameter block for ECDH, '
+            'and to return the same literal body, file name, format and signatures after encrypt -> export -> import -> decrypt for passphrase and public-key recipients. Path trees exhausted within bounds.',
+    'note': 'The claim is about framing only: the real ciphers, CFB, RSA, ECDH, AES-KW, PKCS#5 padding and every compressor are outside (C code). Bodies of 0..3 symbolic octets.'}
+CLAIMS['C06'] = {
+    'technique': 'bounded symbolic execution of protect / unlock / key-blob encryption with an ideal cipher, collision-free hash stand-in and symbolic entropy (CrossHair+z3)',
+    'text': 'O6.1: what protect() hands the cipher is secret-MPIs || SHA-1(secret-MPIs) under the derived key with fresh IV and salt, S2K iterated+salted usage 254, all secret fields zero afterwards (RSA/DSA/EdDSA, symbolic secret octets and passphrase). '
+            'O6.3: the unlock check accepts exactly the RFC predicate on an arbitrary symbolic decrypted string (usage 254 and 255), else raises and leaves the fields zero. O6.2: after protect, after a normal and after a raising unlock scope, and after a wrong passphrase, primary and subkey are locked and hold zeros. '
+            'O6.4: the export depends on the secrets only through the cipher. O6.5: foreign S2K forms incl. GNU dummy load as locked and refuse private use.',
+    'note': 'Trusted: stand-ins of harness/encfix.py. Not covered: real S2K+CFB interoperability (C12 covers derivation), memory residue, private operations after unlock (cryptography library).'}
+CLAIMS['C07'] = {
+    'technique': 'bounded symbolic execution: the derived public packet as a function of public fields only (symbolic secret octets), public-twin structure, refusal matrix (CrossHair+z3)',
+    'text': 'O7.1: for RSA, DSA, ElGamal, EdDSA, ECDSA and ECDH secret key packets, unprotected (symbolic secret integers) or protected (symbolic salt/IV/encrypted octets), the packet produced by pubkey() equals the public packet built from the public material alone. '
+            'O7.2: the public twin of three key shapes consists of tags {6,14,13,17,2} only, keeps fingerprint, identities and subkeys, contains no secret integer as a substring and re-imports as public. O7.3: every private operation refuses on public objects, encryption refuses on private keys. O7.4: twins reflect later additions.',
+    'note': 'Key-level obligations use concrete fixture keys with a symbolic choice of shape/operation. Armored form (base64, C code) and object-graph scanning are outside.'}
+CLAIMS['C13'] = {
+    'technique': 'entropy as a symbolic variable: os.urandom replaced by a symbolic feed, every salt / IV / session key / prefix compared with the feed element it must be (CrossHair+z3)',
+    'text': 'With os.urandom (the only entropy entry point PGPy uses) returning elements of a feed whose contents the solver chooses, passphrase encryption is shown to use three distinct draws of key size, 8 and block size for session key, salt and prefix, a second encryption three new ones; '
+            'public-key encryption two; key protection an own IV and salt per key and subkey; and with a cipher whose output ignores its input the exported message does not depend on the session key. A constant, cached, reused or message-derived value cannot equal an arbitrary fresh feed element.',
+    'note': 'NOT decided: that each ECDH encryption makes a new ephemeral key (generation is a C call inside the stubbed public-key operation); quality of the OS source; randomness during key generation.'}
+CLAIMS['C14'] = {
+    'technique': 'bounded symbolic exploration of packet-sequence shapes through the real key parser / exporter against a reference grouping function (CrossHair+z3 forking on symbolic menu indices)',
+    'text': 'A transferable key is assembled from a 14-element packet menu (user ids, attribute, subkeys, trust packet, seven signatures with exportable absent/1/0 and equal/differing times, a second primary) by symbolic indices; after the real from_blob every signature must sit on the component that precedes it, '
+            'trust packets be ignored and the second primary be split off; the export must omit exactly the non-exportable signatures, re-import to the same structure, be stable, and equal the export of a copy. Sequences of 1..3 (quick) / 4 (thorough) packets, exhaustively per partition.',
+    'note': 'Packet contents are concrete: this is solver-driven exploration of shapes, and the evidence says so. "Still verifying" is C01/C15. One genuine defect repaired (stable ordering of equal-time signatures).'}
+CLAIMS['C15'] = {
+    'technique': 'bounded symbolic exploration of key-management histories on the real PGPKey API with a remembering signature oracle (CrossHair+z3 forking on symbolic operation indices)',
+    'text': 'A fresh key is taken through 1..2 (quick) / 3 (thorough) steps chosen by symbolic indices from 10 operations (add identity / image / signing subkey / encryption subkey, re-certify with new preferences, third-party certify, revoke identity / subkey / key, remove identity or add revoker, export+import), optionally in the same second; '
+            'afterwards, on the private key, its public twin, a re-imported export and a copy, every self-signature, binding and revocation must verify under the public half (the octets hashed at verification equal those hashed at signing), and identities, subkeys, revocations, effective flags and primary mark must be those of a reference model.',
+    'note': 'Contents concrete, histories short; protect/unlock are in C06. Exploration of operation sequences, not of data.'}
+CLAIMS['C16'] = {
+    'technique': 'bounded symbolic execution of the real KeyAction / key-flag selection with capability sets chosen by symbolic indices (CrossHair+z3)',
+    'text': 'On a fixture key with two subkeys the KeyFlags of the identity and of the bindings are overwritten per path from 7 capability sets each (plus an optional later re-binding), and sign / certify / encrypt must use the first component whose most recent self-signature grants the capability, name exactly it (issuer, issuer fingerprint, recipient id), and refuse otherwise; '
+            'with enforcement off the operation proceeds; the precondition matrix (public / unprotected / locked / unlocked / no identity x 7 operations) and subkey-addressed decryption are decided too.',
+    'note': 'One identity per key, two subkeys; algorithm capability is not studied. One genuine defect repaired (subkey flags taken from the oldest binding).'}
+CLAIMS['C18'] = {
+    'technique': 'bounded symbolic execution of the fingerprint computation with SHA-1 replaced by a recorder: the octets fed to the hash are compared with 99 || len2 || exported public body (CrossHair+z3)',
+    'text': 'For RSA (leading-zero integers included), DSA, ElGamal, EdDSA, ECDSA and ECDH keys, given as foreign public packets and as secret packets, the octets the fingerprint computation feeds to SHA-1 are shown equal to 0x99, the two-octet length and the exported public-key packet body, '
+            'identical for the secret packet and the public packet derived from it; Fingerprint key id / short id / space and case normalisation are decided on spaced forms with symbolic space positions.',
+    'note': 'NOT decided: the creation-time clause (local-time rendering: calendar.timegm(timetuple()) is C code); SHA-1 itself; ids written into recipient fields.'}
 NOT_APPLICABLE = {p: NB for p in ['C%02d' % i for i in range(1, 21)] if p not in CLAIMS}
